@@ -43,7 +43,7 @@ def jobs(tier):
         J.append(Job('huff-decode-b%d'%bk,'C01/huff_decode.c',defs=['-DBOOK=%d'%bk],unwind=18,unwindset=[('_make_words',r'j<33',34),('_make_words',r'i<33',34),('vorbis_book_init_decode',r'i<tabn',257),('vorbis_book_init_decode',r'j<\(1<<',33),('ov_ilog',None,34),('decode_packed_entry_number',r'while\(lok<0',33)],checks=['leak'],object_bits=10,
             witnesses=['entry decoded','end of packet']+(['codeword longer than the first-level table'] if bk in (2,5,7) else []),functions=['vorbis_book_init_decode','vorbis_book_decode','decode_packed_entry_number','vorbis_book_clear','_make_words'],
             models=['M-bitpack (libogg read side, validated against libogg.a)','M-libc qsort (insertion sort)'],bounds='concrete length list %d, every packet of 0..4 bytes, first codeword at bit 0..7'%bk,weight=2))
-    J+=other('C02',tier,lambda j:j.name.startswith('K-synth') or j.name=='P-quantvals' or j.name.startswith('K-floor0'),fn='_jobs0')   # _jobs0: the C02 jobs proper (C02.jobs itself borrows kernels from this file)
+    J+=other('C02',tier,lambda j:j.name.startswith('K-synth') or j.name=='P-quantvals' or j.name.startswith('K-floor0') or j.name.startswith('P-map') or j.name=='P-setup' or j.name=='S-headerin',fn='_jobs0')   # _jobs0: the C02 jobs proper (C02.jobs itself borrows kernels from this file)
     J+=blk(tier,lambda j:j.name.startswith('blockin-step'))[:2 if q else 99]
     return J
 CLAIM={'text':'Differential (translation-validation style) bounded checks of the decoder integer/table kernels against references transcribed from the Vorbis I specification: ilog, float32_unpack, lookup1_values, Huffman codeword assignment and tree validation (_make_words), Huffman decode through the sorted-word tables for 6-8 concrete books and every packet (huff-decode), VQ lookup-table construction (types 1/2, sequence, sparse), placement of VQ vectors by the four vector decoders (residue 0/1/2 layouts, floor 0), residue partition/classification order over passes (K-res), floor-1 neighbour tables, packet decode order, amplitude unwrap (7.2.4 step 1), curve synthesis (step 2) and line rasteriser (render_point, render_line), floor-0 coefficient unwrap and amplitude scale (6.2.2), the audio packet prologue (mode, window flags), and the per-block sample count / overlap placement of the accumulator.',
